@@ -1018,6 +1018,25 @@ def gen_reconnect(rng, knobs=None):
             prog.append(rng.choice([['complete', ref, 'req'], ['emit', ref, 'req', spx[0], spx[1], 0], ['emit', ref, 'req', spx[0], spx[1], 1]]))
             prog.append(['pump'])
             nref += 1
+        old = [r for (r, kind, ep) in pend if ep == 'c' and kind in ('stream', 'rr')]
+        if old and k.get('p_late_tidy') and rng.random() < k['p_late_tidy']:
+            # the application first re-subscribes on the new connection (the request gets the first stream id again), and only then
+            # releases what it held of the old connection: cancel() / request() on a subscription that was failed by the reconnect,
+            # cancel() of the failed future - legal, and none of the new stream's business
+            opts['late_actions'] = True
+            newref = nref
+            nref += 1
+            prog.append(['stream', 'c', spec(rng, big=False), 5, {'src': 'scripted'}, True])
+            prog.append(['pump'])
+            for r in old[:2]:
+                t = rng.random()
+                prog.append(['cancel', r, 'req'] if t < 0.6 else (['request_n', r, 'req', 2] if t < 0.8 else ['fut_cancel', r]))
+            prog.append(['pump'])
+            spx = spec(rng, big=False)
+            prog.append(['emit', newref, 'resp', spx[0], spx[1], 0])
+            prog.append(['pump'])
+            prog.append(['complete', newref, 'resp'])
+            prog.append(['pump'])
         prog.append(['advance', period + 10])
         prog.append(['pump'])
     prog.append(['probe', 'c', spec(rng, big=False), spec(rng, big=False)])
